@@ -1,5 +1,5 @@
 #!/bin/sh
 # Offline setup after a fresh restore: build the harness (default configuration) and the Lean targets the checks use (driver + every property module with its imports).
 set -e
-cd /verif/harness && CARGO_NET_OFFLINE=true cargo build --offline --release -q && cargo build --offline -q --profile relchecked && cargo build --offline -q --release --features zero_based_strings --target-dir target-zero && cargo build --offline -q --profile relchecked --features zero_based_strings --target-dir target-zero
+cd /verif/harness && CARGO_NET_OFFLINE=true cargo build --offline --release -q && cargo build --offline -q && cargo build --offline -q --profile relchecked && cargo build --offline -q --release --features zero_based_strings --target-dir target-zero && cargo build --offline -q --profile relchecked --features zero_based_strings --target-dir target-zero
 cd /verif/lean && lake build $(python3 /verif/tools/targets.py)
